@@ -227,7 +227,7 @@ fn reader_case(ctx: &Ctx, idx: u64, r: &mut Rng, lzip: bool, tiny: bool) -> Vec<
     if r.chance(1, 3) {
         plan.short = vec![*r.pick(&[1usize, 2, 7, 100])];
     }
-    let workers = *r.pick(&[1u32, 2, 4, 16]);
+    let workers = *r.pick(&[1u32, 2, 4, 16, 1, 2, 0, 300]);
     let sizes = vec![*r.pick(&[1usize, 13, 4096, 65536])];
     let cap = data.len() + (1 << 20);
 
@@ -406,7 +406,7 @@ fn writer_case(ctx: &Ctx, idx: u64, r: &mut Rng, lzip: bool, tiny: bool) -> Vec<
     let units = if idx < STEER { 3 } else { r.range(0, if tiny { 3 } else { 8 }) as usize };
     let len = if units == 0 { 0 } else { (units - 1) * unit + 1 + r.usize_below(unit) };
     let data = mt::stamped_data(r, len, unit, true);
-    let workers = *r.pick(&[1u32, 2, 4, 16]);
+    let workers = *r.pick(&[1u32, 2, 4, 16, 1, 2, 0, 300]);
     #[derive(Debug, Clone)]
     enum WF {
         None,
